@@ -2,3 +2,5 @@ import SfsModel.Model.Index
 import SfsModel.Model.Array
 import SfsModel.Model.Spectrum
 import SfsModel.Model.Create
+import SfsModel.Model.Cli
+import SfsModel.Model.IoModel
